@@ -106,6 +106,11 @@ def limit_programs():
     for n in (65534, 65535, 65536, 65537):
         # constants: distinct number literals in one function
         out.append(("limit:constants:%d" % n, "var s = 0;\n" + "".join("s = %d.5;\n" % i for i in range(n - 3)) + "print(\"done\");\n", {}))
+    for n in range(65532, 65541):
+        # n distinct literals inside ONE function (locals only, so nothing else enters its constant table): either rejected, or the first
+        # and the last literal still denote themselves
+        out.append(("limit:constvalues:%d:%d" % (n, n - 1), "fn f() {\nvar first = 0.25;\nvar s = 0;\n" + "".join("s = %d.5;\n" % i for i in range(n - 1)) +
+                    "return [first, s];\n}\nvar r = f();\nprint(r[0]);\nprint(r[1]);\n", {}))
     return out
 
 
@@ -196,6 +201,8 @@ def correspondence(ctx, model_ok=True):
         expect = {"jump": ["done"], "loop": ["2", "done"], "try": ["caught", "done"]}.get(kind)
         if r.get("status") == "err" and r.get("kind") == "CompileError":
             ok = True
+        elif r.get("status") == "ok" and kind == "constvalues":
+            ok = r.get("printed") == ["0.25", "%s.5" % (int(name.split(":")[3]) - 1)]
         elif r.get("status") == "ok" and kind == "localsfor":
             ok = r.get("printed") == ["3", "5", name.split(":")[3]]
         elif r.get("status") == "ok" and kind == "localsclass":
